@@ -20,13 +20,17 @@ def sh(cmd, cwd=None, timeout=1200, env=None):
 def main():
     out_root = os.path.join(os.path.dirname(os.path.dirname(os.path.abspath(__file__))), 'seeded')
     os.makedirs(out_root, exist_ok=True)
-    for prop in sys.argv[1:]:
-        src = '/tmp/sa/%s/out' % prop
+    args = sys.argv[1:]
+    root = '/tmp/sa'; names = {'a': 'a', 'b': 'b'}
+    if '--round2' in args:
+        args.remove('--round2'); root = '/tmp/sb'; names = {'a': 'c', 'b': 'd'}
+    for prop in args:
+        src = '%s/%s/out' % (root, prop)
         for v in ('a', 'b'):
             diff = os.path.join(src, v + '.diff'); demo = os.path.join(src, 'demo_%s.py' % v)
             if not (os.path.exists(diff) and os.path.exists(demo)):
                 print(prop, v, 'MISSING'); continue
-            wt = '/tmp/confirm_%s_%s' % (prop, v)
+            wt = '/tmp/confirm_%s_%s' % (prop, names[v])
             sh('git -C /repo worktree remove --force %s' % wt)
             rc, o = sh('git -C /repo worktree add -q --detach %s HEAD' % wt)
             env = dict(os.environ, PYTHONPATH=wt, PYTHONDONTWRITEBYTECODE='1')
@@ -46,9 +50,9 @@ def main():
                 sh('git checkout -- .', cwd=wt)
                 rc_c, o_c = sh('timeout 300 %s %s' % (PY, demo), cwd=wt, env=env)
                 ok = tests_ok and rc_d != 0 and rc_c == 0
-                print(prop, v, 'tests:', o_t.strip()[-60:], '| demo with change rc=%d | clean rc=%d |' % (rc_d, rc_c), 'CONFIRMED' if ok else 'REJECTED')
+                print(prop, names[v], 'tests:', o_t.strip()[-60:], '| demo with change rc=%d | clean rc=%d |' % (rc_d, rc_c), 'CONFIRMED' if ok else 'REJECTED')
                 if ok:
-                    d = os.path.join(out_root, '%s-%s' % (prop, v))
+                    d = os.path.join(out_root, '%s-%s' % (prop, names[v]))
                     os.makedirs(d, exist_ok=True)
                     with open(os.path.join(d, 'patch.diff'), 'w') as f: f.write(pdiff)
                     shutil.copy(demo, os.path.join(d, 'demo.py'))
@@ -56,7 +60,7 @@ def main():
                     if os.path.exists(os.path.join(src, 'notes.md')):
                         notes = open(os.path.join(src, 'notes.md')).read()
                         with open(os.path.join(d, 'agent_notes.md'), 'w') as f: f.write(notes)
-                    meta = {'id': '%s-%s' % (prop, v), 'breaks_property': prop, 'source': 'independent sub-agent given only the property text and a scratch worktree',
+                    meta = {'id': '%s-%s' % (prop, names[v]), 'breaks_property': prop, 'source': 'independent sub-agent given only the property text and a scratch worktree',
                             'repo_head_when_confirmed': sh('git -C /repo rev-parse --short HEAD')[1].strip(),
                             'confirmed': {'tests_with_change': o_t.strip()[-80:], 'demo_with_change_exit': rc_d, 'demo_clean_exit': rc_c,
                                           'demo_failure_tail': o_d.strip()[-300:]},
